@@ -17,7 +17,7 @@ static inline void xv_tpcore_havoc(void)
     xv_seq = nondet_long();
     xv_op_calls = nondet_long(); xv_op_kind = nondet_int(); xv_op_seq = nondet_long(); xv_op_s = nondet_voidp(); xv_op_a1 = nondet_voidp();
     xv_op_a2 = nondet_size_t(); xv_op_rv = nondet_int(); xv_op_errno = nondet_int();
-    xv_upd_calls = nondet_long(); xv_upd_seq = nondet_long(); xv_upd_s = nondet_voidp();
+    xv_upd_calls = nondet_long(); xv_upd_seq = nondet_long();
     xv_t = nondet_voidp(); xv_updt_calls = nondet_long(); xv_updt_seq = nondet_long();
     xv_en_calls = nondet_long(); xv_en_seq = nondet_long(); xv_en_s = nondet_voidp();
     xv_ps_calls = nondet_long(); xv_ps_arg = nondet_int(); xv_ps_ret = nondet_size_t();
